@@ -57,6 +57,8 @@ fn main() {
     common::quiet_panics();
     let code = match prop.as_str() {
         "C04" => props::c04::run(&ctx),
+        "C05" => props::c05::run(&ctx),
+        "C12" => props::c12::run(&ctx),
         "C16" => props::c16::run(&ctx),
         "C18" => props::c18::run(&ctx),
         _ => {
